@@ -242,6 +242,17 @@ func cmdCheck(args []string) int {
 	for i, j := range jobs {
 		j.Property = id
 		j.Known = known
+		if j.MaxWallS == 0 {
+			// a job that needs more than this on some tree (a change can make a harness explode) is cut and
+			// reported as inconclusive; what it found up to then is still reported
+			j.MaxWallS = 900
+			if tier == "thorough" {
+				j.MaxWallS = 5400
+			}
+			if v, _ := strconv.Atoi(os.Getenv("GOSYM_JOB_WALL_S")); v > 0 {
+				j.MaxWallS = v
+			}
+		}
 		wgj.Add(1)
 		sem <- struct{}{}
 		go func(i int, j *JobCfg) {
@@ -306,7 +317,7 @@ func cmdCheck(args []string) int {
 			}
 		}
 		if r.Truncated {
-			inconclusive = append(inconclusive, fmt.Sprintf("%s: path limit reached", r.Cfg.Name))
+			inconclusive = append(inconclusive, fmt.Sprintf("%s: path or time budget of the job reached after %d paths", r.Cfg.Name, r.Paths))
 		}
 		if !r.Covers["end"] {
 			inconclusive = append(inconclusive, fmt.Sprintf("%s: vacuous (no path reaches the end of the harness)", r.Cfg.Name))
